@@ -10,7 +10,8 @@ Follows `secsgem/gem/hosthandler.py`:
   S2F33 `[(report_id, dvs)]`, S2F35 `[(ceid, [report_id])]`, S2F37 `(True, [ceid])` are sent, in that order; the replies are
   not looked at;
 * `clear_collection_events`: `report_subscriptions = {}`, then S2F37 `(False, [])` (`disable_ceids`), then S2F33 `[]`
-  (`disable_ceid_reports`);
+  (`disable_ceid_reports`); both are also host API calls of their own (`SecsHandler.disable_ceids/disable_ceid_reports`), which
+  leave `report_subscriptions` as it is;
 * `_on_s06f11`: for each report `report_subscriptions[RPTID.get()]` (`KeyError` for an unknown id, `TypeError` for a
   list-valued one), `values[index]` for every subscribed dv (`IndexError` when the report carries fewer values; surplus
   values are ignored), one `collection_event_received` event per report, then S6F12 (0); an exception ⇒ S6F0 *after* the
@@ -82,6 +83,8 @@ def Pair.init : Pair := ⟨Ev.St.init, Host.init⟩
 inductive Op
   | subscribe (ceid : Id) (dvs : List Id) (reportId : Option Id)
   | clear
+  | disableReports                 -- `disable_ceid_reports()`: S2F33 with an empty list (delete all); `report_subscriptions` is NOT touched
+  | disableCeids                   -- `disable_ceids()`: S2F37 (False, [])
   | trigger (ceids : List Id)
   | setSv (v : Id) (x : Val)
   | setDv (v : Id) (x : Val)
@@ -90,6 +93,7 @@ deriving DecidableEq, Repr
 inductive Out
   | acks (a33 a35 a37 : Ack)                  -- what the equipment answered to the three requests of a subscription
   | cleared (a37 a33 : Ack)
+  | single (a : Ack)
   | delivered (effs : List (List HostEff)) (crashed : Bool)   -- per S6F11 of the trigger call: what the host did with it
   | nothing
 deriving DecidableEq, Repr
@@ -105,6 +109,12 @@ def step (cfg : Ev.Cfg) (p : Pair) : Op → Pair × Out
     let (s1, a1) := Ev.s2f37 p.eq false []
     let (s2, a2) := Ev.s2f33 cfg s1 []
     (⟨s2, { p.host with subs := [] }⟩, .cleared a1 a2)
+  | .disableReports =>
+    let (s1, a1) := Ev.s2f33 cfg p.eq []
+    (⟨s1, p.host⟩, .single a1)
+  | .disableCeids =>
+    let (s1, a1) := Ev.s2f37 p.eq false []
+    (⟨s1, p.host⟩, .single a1)
   | .trigger ceids =>
     let r := Ev.trigger cfg p.eq ceids
     (p, .delivered (r.1.map (fun m => onS6f11 p.host m.1 m.2)) r.2)
